@@ -677,6 +677,37 @@ class ArchiveObj(object):
         return a
 
 
+ArchiveWriteExc = z3.Function('ArchiveWriteExc', Val, BOOL)     # the exception of a rejected archive write
+PartDom = z3.Function('PartDom', ValSet, ValSet, ValSet)
+PartVal = z3.Function('PartVal', ValSet, ValMap, ValSet, ValMap, ValMap)
+
+
+def archive_write_rejected(I, st, a, ref, bulk):
+    """-> [(state, None | Exc)]: a write to a (non-null) archive either goes through, or the backend rejects a value it
+    cannot encode and raises.  A rejected single-key write changes nothing; a rejected bulk write may have stored some of
+    the entries already (the archive is then somewhere between the old contents and the overlay)."""
+    out = []
+    for (s, fails) in I.branch(st, fresh('archive_write_rejected', BOOL), 'arch-write-fails', None):
+        if not fails:
+            out.append((s, None))
+            continue
+        e = Exc(None, origin='archive write rejected')
+        s2 = s.fork()
+        s2.assume(ArchiveWriteExc(e.term))
+        if bulk is not None:
+            x = _x()
+            # which entries made it is a function of the inputs (so that a contract and its implementation name the same state)
+            part = ArchiveObj(a.null, PartDom(a.dom, bulk.dom), PartVal(a.dom, a.val, bulk.dom, bulk.val), fresh('partial_size', INT), a.role)
+            s2.assume(*part.facts())
+            s2.assume(forall([x], z3.Implies(a.dom[x], part.dom[x])),
+                      forall([x], z3.Implies(part.dom[x], z3.Or(a.dom[x], bulk.dom[x]))),
+                      forall([x], z3.Implies(part.dom[x], z3.Or(z3.And(a.dom[x], part.val[x] == a.val[x]),
+                                                                  z3.And(bulk.dom[x], part.val[x] == bulk.val[x])))))
+            s2.put(ref, part)
+        out.append((s2, e))
+    return out
+
+
 def archive_method(I, st, ref, name, ca, node):
     a = st.get(ref)
     p = ca.pos
@@ -711,17 +742,21 @@ def archive_method(I, st, ref, name, ca, node):
                 out.append((s, NONE))
                 continue
             single = getattr(o, 'single', None)
-            s2 = s.fork()
-            if single is not None:
-                kt = I.to_val(single[0], node)
-                vt = I.to_val(single[1], node)
-                # encoding a value for a persistent backend may fail: see C03; here lossless
-                s2.put(ref, a.clone(dom=z3.Store(a.dom, kt, True), val=z3.Store(a.val, kt, vt),
-                                    size=a.size + z3.If(a.dom[kt], 0, 1)))
-            else:
-                dom, val, size = overlay(I, s2, a, o.dom, o.val, o.size)
-                s2.put(ref, a.clone(dom=dom, val=val, size=size))
-            out.append((s2, NONE))
+            # a persistent backend may reject a value it cannot encode: the write raises (see archive_write_rejected)
+            for (s_ok, rejected) in archive_write_rejected(I, s, a, ref, o if single is None else None):
+                if rejected is not None:
+                    out.append((s_ok, rejected))
+                    continue
+                s2 = s_ok.fork()
+                if single is not None:
+                    kt = I.to_val(single[0], node)
+                    vt = I.to_val(single[1], node)
+                    s2.put(ref, a.clone(dom=z3.Store(a.dom, kt, True), val=z3.Store(a.val, kt, vt),
+                                        size=a.size + z3.If(a.dom[kt], 0, 1)))
+                else:
+                    dom, val, size = overlay(I, s2, a, o.dom, o.val, o.size)
+                    s2.put(ref, a.clone(dom=dom, val=val, size=size))
+                out.append((s2, NONE))
         return out
     if name == 'clear' and not p:
         s = st.fork()
@@ -759,10 +794,14 @@ def archive_method(I, st, ref, name, ca, node):
                 if isnull:
                     out.append((s1, NONE))
                 else:
-                    s2 = s1.fork()
-                    s2.put(ref, a.clone(dom=z3.Store(a.dom, kt, True), val=z3.Store(a.val, kt, vt),
-                                        size=a.size + z3.If(a.dom[kt], 0, 1)))
-                    out.append((s2, NONE))
+                    for (s_ok, rejected) in archive_write_rejected(I, s1, a, ref, None):
+                        if rejected is not None:
+                            out.append((s_ok, rejected))
+                            continue
+                        s2 = s_ok.fork()
+                        s2.put(ref, a.clone(dom=z3.Store(a.dom, kt, True), val=z3.Store(a.val, kt, vt),
+                                            size=a.size + z3.If(a.dom[kt], 0, 1)))
+                        out.append((s2, NONE))
         return out
     raise Unsupported('archive method %s/%d' % (name, len(p)), node)
 
@@ -1140,6 +1179,9 @@ def identical(I, st, a, b):
         return a.term == b.term
     if isinstance(a, Opaque) and isinstance(b, Opaque):
         return None
+    if (isinstance(a, Opaque) and isinstance(b, Ref)) or (isinstance(a, Ref) and isinstance(b, Opaque)):
+        o, r = (a, b) if isinstance(a, Opaque) else (b, a)
+        return o.term == I.ref_const(r)        # an arbitrary object may be this very object
     if type(a) is not type(b):
         if isinstance(a, Opaque) or isinstance(b, Opaque):
             return None
